@@ -163,6 +163,41 @@ DIRECTED = [bytes.fromhex("42424344" "30" "00000000" "00000000" "42424344" "10" 
             bytes.fromhex("42424344" "30" "0000000C" "00000000")]
 
 
+def framework_des_ser(stmts, bits):
+    """C06 on the REAL framework for an arbitrary bit string: deserialise with the program; if that
+    parses, serialising the description must give back exactly the bits consumed.
+    -> (outcome, detail): 'unparseable' | 'ok' | 'violation'"""
+    import copy
+    from props import c21
+    from vc2_conformance.bitstream.io import BitstreamWriter
+    from vc2_conformance.bitstream.serdes import Serialiser
+
+    d = c21.real_deserialise(stmts, bits)
+    if d[0] != "OK":
+        return "unparseable", d[1]
+    consumed = d[2]
+    if consumed > len(bits):
+        return "unparseable", "ran into the byte padding"
+    f = BytesIO()
+    w = BitstreamWriter(f)
+    try:
+        with Serialiser(w, copy.deepcopy(d[1])) as ser:
+            c21.run_prog(ser, stmts)
+        by, bi = w.tell()
+        w.flush()
+    except Exception as e:  # noqa
+        return "violation", "re-serialising the deserialised description fails: %s: %s" % (type(e).__name__, str(e)[:120])
+    n = by * 8 + (7 - bi)
+    out = c21.bits_of_bytes(f.getvalue())[:n]
+    if n != consumed or out != [bool(b) for b in bits[:consumed]]:
+        return "violation", "re-serialised bits differ: read %d bits %s, wrote %d bits %s" % (
+            consumed, "".join("1" if b else "0" for b in bits[:consumed]), n, "".join("1" if b else "0" for b in out))
+    d2 = c21.real_deserialise(stmts, out + [bool(b) for b in bits[consumed:]])
+    if d2[0] != "OK" or c21.canon(d2[1]) != c21.canon(d[1]):
+        return "violation", "re-deserialising the output gives a different description"
+    return "ok", None
+
+
 class Prop(object):
     id = "C06"
     lean_modules = ["VC2.Props.C06"]
@@ -221,6 +256,24 @@ class Prop(object):
         if any(e == "NONCANON" for e in exp) and not self._bad:
             i = [e for e in exp].index("NONCANON")
             self._bad = {"kind": "code", "line": lines[i], "why": "the real reader accepts a non-canonical code: re-writing the value gives other bits"}
+        # framework level, arbitrary bits: random description programs on RANDOM bit strings (this also walks
+        # into bounded-block overrun, which the model does not have: there the real code alone is examined)
+        from props import c21
+        ctx.corr_names.append("REAL Deserialiser -> Serialiser on random description programs and RANDOM bit strings: the bits consumed are reproduced")
+        frng = ctx.rng("c06fw")
+        for _ in range(ctx.n(600, 8000)):
+            stmts, _c = c21.make_case(frng)
+            nb = frng.randrange(0, 400)
+            style = frng.random()
+            p1 = 0.5 if style < 0.4 else (0.85 if style < 0.7 else 0.15)
+            bits = [frng.random() < p1 for _ in range(nb)]
+            res, why = framework_des_ser(stmts, bits)
+            ctx.evaluations += 1
+            ctx.count("framework:%s" % res)
+            if res == "ok":
+                ctx.distinct.add(hash((" ".join(c21.show_stmts(stmts)), tuple(bits))))
+            if res == "violation" and not self._bad:
+                self._bad = {"kind": "framework", "program": c21.show_stmts(stmts), "bits": "".join("1" if b else "0" for b in bits), "why": why}
         # byte-level round trip on the real code
         ctx.corr_names.append("REAL deserialise -> serialise -> compare bytes -> re-deserialise on conformant streams and their mutations")
         seeds = seed_streams()
